@@ -361,7 +361,8 @@ def walk(ctx, col):
         ok = pidv in fields and all(node.body.index(r) > node.body.index(pid_stmt) for r in rebind)
         col.check(ok, RC, q, conv.loc(pid_stmt) if pid_stmt is not None else conv.loc(),
                   "the recorded parent is the id handed down in the frame", f"pid column <- `{pidv}` of frame {fields}",
-                  f"pid column receives `{pidv}`, which is not the frame's parent field at that point", stmt="pidcol")
+                  f"pid column receives `{pidv}`, which is not the frame's parent field at that point", stmt="pidcol",
+                  definite=_plain_known(col, q, pid_stmt))
         # children pushes
         pushes = [c for c in ast.walk(loops[0]) if isinstance(c, ast.Call) and isinstance(c.func, ast.Attribute)
                   and c.func.attr in ("extend", "append") and isinstance(c.func.value, ast.Name) and c.func.value.id == stackv]
@@ -444,6 +445,19 @@ def walk(ctx, col):
 
 
 # --------------------------------------------------------------------------- points & splits
+
+
+def _plain_known(col, q, stmt) -> bool:
+    """the statement is written with locals the rule knows only (no temporaries or helpers of a later edit) and calls nothing
+    but the method it is about: what it says can be read off it"""
+    if stmt is None:
+        return False
+    unk = col._unknown_locals(q)
+    if unk is None:
+        return False
+    ids = {n.id for n in ast.walk(stmt) if isinstance(n, ast.Name)}
+    ncalls = sum(1 for n in ast.walk(stmt) if isinstance(n, ast.Call))
+    return not (ids & unk) and ncalls <= 1
 
 
 def points(ctx, col):
